@@ -1,11 +1,16 @@
 import Rare.Drv.Expr
 import Rare.Model.C09
+import Rare.Model.C09Utf8
 /-!
 Line-protocol ops of C09.
 
   expr  <opt> <template> <elems> <keys>          shared op (standard function registry)
   tpl   <opt> <template raw bytes> <elems> <keys> compile + evaluate with the probe registry; the template
-                                                  may be invalid UTF-8 (decoded the way Go's `[]rune(s)` does)
+                                                  may be invalid UTF-8 (`compileBytes` decodes like `[]rune(s)`)
+  xtpl  <opt> <template raw bytes> <elems> <keys> the same with the standard function registry
+  runes <raw bytes>                               `[]rune(s)` as code points, `utf8.Valid`, `string([]rune(s))`
+  seps  <plane>                                   the runes of a Unicode plane that separate two arguments
+  enc   <n,n,…>                                   `string([]rune{n,…})` for arbitrary values (surrogates, > U+10FFFF)
   lit   <opt> <text raw bytes>                    `escapeLit` of the text, compiled and evaluated
   split <text raw bytes>                          `splitTokenizedArguments`
   tree  <opt> <tokens> <elems> <keys>             a serialised (tree, style): the SPEC prints it, the model
@@ -14,77 +19,50 @@ Line-protocol ops of C09.
 namespace Rare.Drv.C09
 open Rare Rare.Expr Rare.Proto Rare.C09
 
-/-! Go's UTF-8 decoding (`[]rune(s)`, `range s`): every byte that does not start a well-formed
-    sequence becomes U+FFFD on its own. -/
-def cont (b : UInt8) (lo hi : UInt8) : Bool := lo ≤ b && b ≤ hi
+/-! Go's UTF-8 decoding (`[]rune(s)`, `range s`) is part of the model: `Rare.C09.decodeRunes`,
+    `compileBytes`, `splitArgsBytes` (`Rare/Model/C09Utf8.lean`).  Every template / text field of a case
+    line is the RAW byte string handed to the real code; nothing is decoded on the harness side. -/
 
-/-- First rune of a non-empty byte string and its width. -/
-def decodeOne (b0 : UInt8) (rest : Bytes) : Char × Nat :=
-  let bad : Char × Nat := (Char.ofNat 0xFFFD, 1)
-  let n0 := b0.toNat
-  if n0 < 0x80 then (Char.ofNat n0, 1)
-  else if 0xC2 ≤ n0 && n0 ≤ 0xDF then
-    match rest with
-    | b1 :: _ => if cont b1 0x80 0xBF then (Char.ofNat ((n0 - 0xC0) * 64 + (b1.toNat - 0x80)), 2) else bad
-    | _ => bad
-  else if 0xE0 ≤ n0 && n0 ≤ 0xEF then
-    let lo : UInt8 := if n0 == 0xE0 then 0xA0 else 0x80
-    let hi : UInt8 := if n0 == 0xED then 0x9F else 0xBF
-    match rest with
-    | b1 :: b2 :: _ =>
-      if cont b1 lo hi && cont b2 0x80 0xBF then
-        (Char.ofNat ((n0 - 0xE0) * 4096 + (b1.toNat - 0x80) * 64 + (b2.toNat - 0x80)), 3)
-      else bad
-    | _ => bad
-  else if 0xF0 ≤ n0 && n0 ≤ 0xF4 then
-    let lo : UInt8 := if n0 == 0xF0 then 0x90 else 0x80
-    let hi : UInt8 := if n0 == 0xF4 then 0x8F else 0xBF
-    match rest with
-    | b1 :: b2 :: b3 :: _ =>
-      if cont b1 lo hi && cont b2 0x80 0xBF && cont b3 0x80 0xBF then
-        (Char.ofNat ((n0 - 0xF0) * 262144 + (b1.toNat - 0x80) * 4096 + (b2.toNat - 0x80) * 64 + (b3.toNat - 0x80)), 4)
-      else bad
-    | _ => bad
-  else bad
-
-def decodeGoF : Nat → Bytes → List Char
-  | 0, _ => []
-  | _, [] => []
-  | f + 1, b0 :: rest =>
-    let (c, w) := decodeOne b0 rest
-    c :: decodeGoF f (rest.drop (w - 1))
-
-def decodeGo (b : Bytes) : List Char := decodeGoF b.length b
-
-def answer (reg : Registry) (opt : Bool) (t : List Char) (ctx : Ctx) : String :=
-  Rare.Drv.Expr.evalWith reg opt t ctx
+/-- `Compile(template string)` + `BuildKey`, through the byte-level entry point of the model. -/
+def answerBytes (reg : Registry) (opt : Bool) (tb : Bytes) (ctx : Ctx) : String :=
+  match compileBytes reg opt tb with
+  | .error m => Rare.Drv.Expr.panicAns m
+  | .ok (stages, errs) =>
+    match Rare.Drv.Expr.unmodelledTag errs with
+    | some n => "unmodelled " ++ n
+    | none =>
+      match (buildKey stages).run ctx with
+      | .error m => Rare.Drv.Expr.panicAns m
+      | .ok v => s!"ok errs={Rare.Drv.Expr.errsStr errs} val={Hex.enc v}"
 
 /-! ### serialised trees: Polish notation, tokens joined by `,`
 
     L:<hex>:<q>   G:<n>:<lead>:<trail>   K:<hex>:<lead>:<trail>   C:<hex>:<argc>:<lead>:<trail>
-    each argument of a call is preceded by  S:<sep>.   White space: a word over s/t, `-` = empty. -/
+    each argument of a call is preceded by  S:<sep>.   White space: a word over a…y (index into
+    `spaceRunes`: a = space, b = tab, c = LF … y = U+3000), `-` = empty. -/
 inductive PTree where
   | node (e : Expr) (ns : NodeStyle) (kids : List PTree)
 
-def parseWs (s : String) : List Bool :=
-  if s = "-" then [] else s.toList.map (· == 't')
+/-- White-space words: one letter per rune, `a`… `y` = index 0…24 into `spaceRunes` (`a` = space, `b` = tab). -/
+def parseWs (s : String) : WsRun :=
+  if s = "-" then [] else s.toList.map (fun c => c.toNat - 97)
 
-def nthSep (seps : List (List Bool)) (i : Nat) : Bool × List Bool :=
-  match seps.getD i [false] with
-  | [] => (false, [])
+def nthSep (seps : List WsRun) (i : Nat) : Nat × WsRun :=
+  match seps.getD i [0] with
+  | [] => (0, [])
   | b :: r => (b, r)
 
 def hexChars (s : String) : Option (List Char) :=
-  (Hex.dec s).bind Rare.Drv.Expr.decodeTemplate
+  (Hex.dec s).map decodeRunes
 
 mutual
 def parseNode : Nat → List String → Option (PTree × List String)
   | 0, _ => none
   | f + 1, tok :: rest =>
     match tok.splitOn ":" with
-    | ["L", h, q] => (hexChars h).map fun s => (.node (.lit s) ⟨q == "1", [], [], fun _ => (false, [])⟩ [], rest)
-    | ["G", n, l, t] => n.toNat?.map fun n => (.node (.group n) ⟨false, parseWs l, parseWs t, fun _ => (false, [])⟩ [], rest)
-    | ["K", h, l, t] => (hexChars h).map fun k => (.node (.key k) ⟨false, parseWs l, parseWs t, fun _ => (false, [])⟩ [], rest)
+    | ["L", h, q] => (hexChars h).map fun s => (.node (.lit s) ⟨q == "1", [], [], fun _ => (0, [])⟩ [], rest)
+    | ["G", n, l, t] => n.toNat?.map fun n => (.node (.group n) ⟨false, parseWs l, parseWs t, fun _ => (0, [])⟩ [], rest)
+    | ["K", h, l, t] => (hexChars h).map fun k => (.node (.key k) ⟨false, parseWs l, parseWs t, fun _ => (0, [])⟩ [], rest)
     | ["C", h, c, l, t] =>
       match hexChars h, c.toNat? with
       | some name, some argc =>
@@ -96,7 +74,7 @@ def parseNode : Nat → List String → Option (PTree × List String)
       | _, _ => none
     | _ => none
   | _, [] => none
-def parseKids : Nat → Nat → List String → Option (List PTree × List (List Bool) × List String)
+def parseKids : Nat → Nat → List String → Option (List PTree × List WsRun × List String)
   | 0, _, _ => none
   | _, 0, rest => some ([], [], rest)
   | f + 1, n + 1, tok :: rest =>
@@ -132,20 +110,45 @@ def handle (args : List String) : String :=
   | ["tpl", o, t, el, ks] =>
     match Hex.dec t, decHexList el, decHexList ks with
     | some tb, some elems, some keys =>
-      answer testRegistry (o == "1") (decodeGo tb) (Rare.Drv.Expr.mkCtx elems keys)
+      answerBytes testRegistry (o == "1") tb (Rare.Drv.Expr.mkCtx elems keys)
     | _, _, _ => "bad-args"
+  | ["xtpl", o, t, el, ks] =>
+    match Hex.dec t, decHexList el, decHexList ks with
+    | some tb, some elems, some keys =>
+      answerBytes Rare.Drv.Expr.registry (o == "1") tb (Rare.Drv.Expr.mkCtx elems keys)
+    | _, _, _ => "bad-args"
+  | ["runes", t] =>
+    match Hex.dec t with
+    | some tb =>
+      let rs := decodeUtf8 tb
+      let cps := if rs.isEmpty then "." else ",".intercalate (rs.map toString)
+      s!"ok {cps} wf={if wellFormed tb then 1 else 0} re={Hex.enc (encodeUtf8 rs)} chars={Hex.enc (encodeRunes (decodeRunes tb))}"
+    | none => "bad-args"
+  | ["seps", p] =>
+    match p.toNat? with
+    | some plane =>
+      let cs := (List.range 0x10000).filterMap fun i =>
+        let c := plane * 0x10000 + i
+        if 0xD800 ≤ c && c ≤ 0xDFFF then none
+        else if splitArgsBytes ([0x61] ++ Rare.C20.encodeRune c ++ [0x62]) == [[0x61], [0x62]] then some c else none
+      s!"ok {if cs.isEmpty then "." else ",".intercalate (cs.map toString)}"
+    | none => "bad-args"
+  | ["enc", ns] =>
+    match (if ns == "." then some [] else (ns.splitOn ",").mapM String.toNat?) with
+    | some rs => s!"ok {Hex.enc (encodeUtf8 rs)}"
+    | none => "bad-args"
   | ["lit", o, t] =>
     match Hex.dec t with
     | some tb =>
-      let text := decodeGo tb
+      let text := decodeRunes tb
       let tpl := escapeLit text
-      let ans := answer testRegistry (o == "1") tpl (Rare.Drv.Expr.mkCtx [] [])
+      let ans := answerBytes testRegistry (o == "1") (encodeRunes tpl) (Rare.Drv.Expr.mkCtx [] [])
       if ans != s!"ok errs=. val={Hex.enc (utf8 text)}" then s!"spec-violation model {ans}"
       else s!"{ans} tpl={Hex.enc (encodeRunes tpl)}"
     | none => "bad-args"
   | ["split", t] =>
     match Hex.dec t with
-    | some tb => s!"ok {hexList ((splitArgs (decodeGo tb)).map encodeRunes)}"
+    | some tb => s!"ok {hexList (splitArgsBytes tb)}"
     | none => "bad-args"
   | ["tree", o, toks, el, ks] =>
     match decHexList el, decHexList ks with
@@ -156,7 +159,7 @@ def handle (args : List String) : String :=
         let ctx := Rare.Drv.Expr.mkCtx elems keys
         let tpl := printTop (styleOf pt) (treeOf pt)
         let spec := evalTree (envOf ctx probeFn) (treeOf pt)
-        let ans := answer testRegistry (o == "1") tpl ctx
+        let ans := answerBytes testRegistry (o == "1") (encodeRunes tpl) ctx
         if ans != s!"ok errs=. val={Hex.enc spec}" then
           s!"spec-violation model {ans} tpl={Hex.enc (encodeRunes tpl)} spec={Hex.enc spec}"
         else s!"{ans} tpl={Hex.enc (encodeRunes tpl)} spec={Hex.enc spec}"
